@@ -41,6 +41,10 @@ first to the last position / reverse / OS order / seeded shuffle; a listing has 
 hook does not fire): `MultiProcessCollector.merge(explicit list)`.  Oracle: exactly the ordinary one evaluated AFTER the
 reaping — the aggregate over the files that still exist: the reaped processes' live gauges are skipped, everything else
 (every file listed before or after a vanished one) is complete.  The model gets the surviving files in the order read.
+MERGE WITHOUT ACCUMULATION (oracle only, no model): at every collection point of a pool with a histogram (every third point
+otherwise) the public `merge(files, accumulate=False)` runs on the same file list: histogram `_bucket{le=b}` = sum over the
+processes of the counts written for bound b (not cumulative), no `_count`, `_sum` as usual, every non-histogram family equal to
+the accumulating result, canonical `le`, no duplicates (sig C08:merge-no-accumulate).
 CORRUPT STORE FILES: a key in a file the library itself wrote that is no longer the canonical JSON of
 [str, str, {str: str}, str] is an oracle failure (C08:store-file-corrupt), not an infrastructure error.
 
@@ -295,8 +299,11 @@ class Oracle:
     def expected_files(self):
         return set(self.filemeta)
 
-    def expected(self):
-        """{family: (help, type, {(sample name, labels): spec})}; spec = ('eq', v) | ('min', vs) | ('max', vs) | ('oneof', vs)"""
+    def expected(self, accumulate=True):
+        """{family: (help, type, {(sample name, labels): spec})}; spec = ('eq', v) | ('min', vs) | ('max', vs) | ('oneof', vs)
+        accumulate=False: what `merge(files, accumulate=False)` is documented to give (for writing merged data back to store
+        files): histogram buckets NOT cumulative — each `_bucket{le=b}` is the sum over the processes of the counts
+        written for bound b — and no `_count`; everything else as usual"""
         out = {}
         for md in self.pool:
             pre, name, kind = prefix_of(md), md['name'], md['kind']
@@ -325,8 +332,9 @@ class Oracle:
                     for b in sorted(m):
                         acc += m[b]
                         cum[b] = acc
-                        series[(name + '_bucket', tuple(sorted(L + (('le', canonical_le(b)),))))] = ('eq', acc)
-                    series[(name + '_count', L)] = ('eq', cum.get(INF, acc))
+                        series[(name + '_bucket', tuple(sorted(L + (('le', canonical_le(b)),))))] = ('eq', acc if accumulate else m[b])
+                    if accumulate:
+                        series[(name + '_count', L)] = ('eq', cum.get(INF, acc))
             if kind == 'gauge':
                 mode = md['mode']
                 base = mode[len(LIVE):] if mode.startswith(LIVE) else mode
@@ -698,6 +706,35 @@ class World:
                     res.count('race:%s-file-read-after-a-vanished-file' % k)
         return fams, [p for p in ls if os.path.exists(p)]
 
+    def no_accumulate_point(self, i, canon, paths):
+        """the public `MultiProcessCollector.merge(files, accumulate=False)` on the file list of this collection point
+        (ORACLE-ONLY stream: the Lean model's merge has no accumulate parameter).  Documented meaning: the merged data in
+        the form that can be written back to store files — histogram buckets per bound, not cumulative, no `_count`;
+        every non-histogram family exactly as in the accumulating result; same help / type / label sets."""
+        from prometheus_client.multiprocess import MultiProcessCollector
+        res = self.res
+        sig = 'C08:merge-no-accumulate'
+        pre = 'merge(files, accumulate=False) on %s: ' % [os.path.basename(p) for p in paths]
+        res.count('no-accumulate:points')
+        try:
+            fams = mpsim.fams_of(MultiProcessCollector.merge(list(paths), accumulate=False))
+        except Exception as e:  # noqa
+            res.failures.append((sig, pre + 'raised %s: %s' % (type(e).__name__, e), i))
+            return
+        c2, dups = mpsim.canon_fams(fams)
+        probs = [w for _, w in check_le_canonical(c2)] + list(dups)
+        probs += ['[%s] %s' % (sg, w) for sg, w in check_oracle(c2, self.oracle.expected(accumulate=False))]
+        plain = lambda c: {n: x for n, x in c.items() if x[1] != 'histogram'}
+        d = mpsim.diff_canon(plain(canon), plain(c2), 'accumulate=True', 'accumulate=False')
+        if d:
+            probs.append('non-histogram families must not depend on `accumulate`: ' + d)
+        if any(x[1] == 'histogram' and x[2] for x in c2.values()):
+            res.count('no-accumulate:points-with-histogram')
+            if any(sn.endswith('_bucket') and v != 0 for x in c2.values() if x[1] == 'histogram' for (sn, _), v in x[2].items()):
+                res.count('no-accumulate:points-with-non-empty-buckets')
+        for w in probs:
+            res.failures.append((sig, pre + w, i))
+
     def collect_point(self, i, want_model=True):
         res = self.res
         res.count('points')
@@ -726,6 +763,8 @@ class World:
             res.failures[at:] = [(sig, self.race_text + ': ' + what, j) for sig, what, j in res.failures[at:]]
         if paths is None:
             paths = self.sim.listing()
+        if i % 3 == 0 or any(md['kind'] == 'histogram' for md in self.pool):
+            self.no_accumulate_point(i, canon, paths)
         names = set(os.path.basename(p) for p in self.sim.listing())
         if names != self.oracle.expected_files():
             res.failures.append(('C08:file-set', 'directory holds %s, the op log implies %s' % (
@@ -1517,6 +1556,9 @@ def run(ctx):
                 'aged per scenario (now/3s/1h/keep) before every collection; hand-written corpus per mode first, then seeded random scenarios; one case = '
                 'one collection point (a collection follows every step outside a hold ... release span); non-trivial when >= 2 processes hold data or a '
                 'death/reuse happened; distinct by the canonical collected output')
+    ctx.extra['merge_no_accumulate'] = ('oracle-only stream (sig C08:merge-no-accumulate): the real merge(files, accumulate=False) is judged by the '
+                                        'per-process-log oracle at every collection point of a pool with a histogram and every third point otherwise; '
+                                        'the Lean model of merge has no accumulate parameter, so there is no model comparison for it')
     quick = ctx.tier == 'quick'
     budget = 40.0 if quick else 420.0
     n_random = 380 if quick else 4000
